@@ -49,7 +49,7 @@ theorem step_quiet (cfg : SplitCfg) (st : SplitState) (t : Tok) (hc : st.consume
     split at h2
     · rename_i w hw
       simp only [hw]
-      have : (w == txt "GO") = false := by simpa [bne] using h2
+      have : (cfg.upper w == txt "GO") = false := by simpa [bne] using h2
       simp [this, hc]
     · exact absurd h2 (by simp)
   · simp only [hk, Bool.false_eq_true, if_false, hc]
